@@ -2,6 +2,7 @@ package props
 
 import (
 	"fmt"
+	restful "github.com/emicklei/go-restful/v3"
 	"regexp"
 	"sort"
 	"strings"
@@ -19,6 +20,7 @@ type c03Scen struct {
 	RouteOrd [][]int   `json:"route_order"`  // per service: permutation of its routes
 	AddPos   []int     `json:"add_position"` // per service: Add happens before this many Route calls
 	Preempt  int       `json:"preempt_permille"`
+	NoTrim   bool      `json:"trim_right_slash_off,omitempty"`
 }
 
 var c03RootsCurly = []string{"/a", "/{t}", "/a/b", "/a/{t}", "/b", "/", "/ab", "/{t}/b", "/a/{t}/{u}", "/{t}/{u}/c/d", "/{t}/b/{u}", "/a/b/{t}"}
@@ -144,6 +146,7 @@ func genC03(x *Ctx) *c03Scen {
 		sc.AddPos = append(sc.AddPos, tp.G(len(sp.Routes)+1))
 	}
 	sc.Preempt = []int{400, 150, 700}[tp.G(3)]
+	sc.NoTrim = tp.Chance(100)
 	return sc
 }
 
@@ -230,6 +233,7 @@ func c03Dominates(x, y []string) bool {
 
 func runC03(x *Ctx) {
 	sc := genC03(x)
+	restful.TrimRightSlashEnabled = !sc.NoTrim
 	x.Res.Scenario = sc
 	x.Res.ScenHash = sim.HashString(jsonStr(sc))
 	s := x.Sim
